@@ -157,8 +157,10 @@ CHECKS = {
              'rules) tied to the code by the `typeof` correspondence on condition bodies and their sub-expressions. Theorems (Properties/C15.v): STRICT mode - '
              'if the checker accepts an expression with type t then in every conforming environment evaluation yields a value of type t or fails only with '
              'entity-missing / overflow / extension errors, for the whole expression language (C15_strict_sound); PERMISSIVE mode - refuted with a witness '
-             '(C15_permissive_refuted = known finding F29, pinned by the corpus). Policy-level glue (request-environment enumeration, scopes, several '
-             'conditions) and the conformance checkers are decided by the direct oracle: random schemas x typed and hazard policies x conforming data.',
+             '(C15_permissive_refuted = known finding F29, pinned by the corpus). Policy level: Impl/ValidatePolicy.v models Validator.Policy (scopes, action application, '
+             'request environments, conditions; vverdict correspondence on 17k policies) and C15_policy_sound states the property itself for accepted policies. The '
+             'conformance checkers (entity.go, request.go) are specified by env_ok / request_env / actions_conform and exercised by the direct oracle: random schemas x '
+             'typed and hazard policies x conforming data.',
         note=TB + 'Hypotheses of the strict theorem: record types of the schema have distinct keys; attribute names shorter than 10^39 bytes (model artifact); '
              'no hypothesis on the data beyond conformance as Validator.Entity / Validator.Request decide it (action entities: parents = closure of the declared groups). The proof found F41, F42, F43 (fixed). '
              'F29 is a known finding.',
@@ -174,12 +176,16 @@ CHECKS = {
                   'repaired in /repo; the model mirrors the repaired code. The validator beyond isEntityDescendant is covered by the runtime oracle only.',
         technique='Coq termination / soundness proofs of the resolver model + AST-level differential correspondence + exhaustive small-graph runtime exploration'),
     'C17': dict(
-        level='exploration', design='§6 C17',
-        text='Direct oracle: generated schema texts and JSON schemas (namespaces, common types, nested optional records, sets, entity / extension references, '
-             'enums, action groups, annotations, quoted names, names shadowing builtins) -> both renderings parse back and resolve to the same resolved '
-             'schema (canonical comparison), second renderings byte-identical, format conversion commutes with resolution.',
-        note='Trusted: the generators and the canonical comparison of resolved schemas. F26 is a known finding.',
-        technique='Go-vs-Go round-trip exploration over generated schemas (Coq reference-resolution model pending)'),
+        level='proof', design='§0.2, §6 C17',
+        text='PARTIAL (JSON half proved, text half explored). Model of the schema JSON codec on JSON trees (Impl/SchemaJson.v, the intermediate structs included), tied to '
+             'the code by the sjsonenc / sjsondec correspondences on AST-born schemas and structural mutants. Theorems (Properties/C17.v): decoding the JSON rendering of '
+             'every well-formed schema AST yields the schema in normal form (entity parent lists sorted, an empty bare namespace dropped, nothing else changed); a second '
+             'rendering is identical; the round trip preserves the verdict of resolution and the resolved schema up to the order of parent lists; the decoder is total. '
+             'The TEXT codec (lexer, parser, printer) is not modelled yet: it is decided by the direct oracle on text-, JSON- and AST-born schemas (both renderings parse '
+             'back and resolve to the same resolved schema, second renderings byte-identical, format conversion commutes with resolution).',
+        note=TB + 'Trusted in addition: the schema generators and the canonical comparison of resolved schemas. F26 and F45 are known findings; F44 was found on AST-born '
+             'schemas and fixed.',
+        technique='Coq proof (JSON codec round trip + resolution preserved) + enc/dec correspondence + Go-vs-Go round-trip oracle over generated schemas (text half)'),
     'C18': dict(
         level='proof', design='§6 C18',
         text='Model of the scanner (buffered rune reader with refill, sentinel, partial-rune handling, tokBuf spill, line/column bookkeeping) over a '
